@@ -48,6 +48,12 @@ MUTANTS = [
       (COL, "            if self.background_context and self.background_context.is_valid:\n                bg_rgb = self.background_context.rgb", "            if self.background_context:\n                bg_rgb = tuple(self.background_context.rgb)")),
 ]
 
+MUTANTS += [
+    M("sweep: hsl saturation range check widened to 2", (CONV, "    if not (0 <= s <= 1 and 0 <= l <= 1):\n        raise ValueError(\"S and L must be in [0, 1] after parsing\")", "    if not (0 <= s <= 2 and 0 <= l <= 1):\n        raise ValueError(\"S and L must be in [0, 1] after parsing\")")),
+    M("sweep: hsla range check uses `or`", (CONV, "    if not (0 <= s <= 1 and 0 <= l <= 1 and 0 <= a <= 1):", "    if not (0 <= s <= 1 or 0 <= l <= 1 and 0 <= a <= 1):")),
+    M("seed: hex digits validated by int() only", (CONV, "    if len(hex_str) != 6 or not all(c in \"0123456789abcdefABCDEF\" for c in hex_str):\n        raise ValueError(f\"Invalid hex color: {hex_str}\")", "    if len(hex_str) != 6:\n        raise ValueError(f\"Invalid hex color: {hex_str}\")")),
+]
+
 BENIGN = [
     M("3-tuple branch: outer guard rewritten as `not str` (inner isinstance tests still protect every comparison)",
       (PAR, "                    if isinstance(c, (int, float)):\n                        if isinstance(c, float) and 0.0 <= c <= 1.0:", "                    if not isinstance(c, str):\n                        if isinstance(c, float) and 0.0 <= c <= 1.0:")),
